@@ -51,7 +51,7 @@ def _get_storage_file(context, command_set, path):
         i += 1
         full_name = '{}_{}'.format(full_name, i)
 
-    ds = open(os.path.join(path, file_name), 'w+b')
+    ds = open(full_name, 'w+b')
     start = ds.tell()
     try:
         applicationentity.write_meta(ds, command_set, context.supported_ts)
